@@ -4,7 +4,7 @@
     This file contains only statements, [exact], and [Print Assumptions].
     [flat t] is the content of a table: its (host, path, target) triples in order. *)
 From Coq Require Import String List NArith.
-From Fabio Require Import Lib.Outcome Lib.Bytes Model.WtF64 Model.TableCmd Model.RouteText Proofs.TableCmd.
+From Fabio Require Import Lib.Outcome Lib.Bytes Model.WtF64 Model.TableCmd Model.RouteText Proofs.TableCmd Proofs.RouteRoundTrip.
 Import ListNotations.
 Local Open Scope N_scope.
 
@@ -101,9 +101,86 @@ Theorem C05_host_case_weight_repaired :
 Proof. exact host_case_weight_repaired. Qed.
 Print Assumptions C05_host_case_weight_repaired.
 
-(* Text round trip.  The full character-level statement is
-   [Proofs.TableCmd.render_parse_roundtrip_statement] (not proved); proved: its conclusion on a
-   concrete table with weights, tags, options, an empty host and a port-only host ... *)
+(* ===== Text round trip: NewTable(t.String()) =====
+   Domain ([table_good], [text_good], all in Proofs/RouteRoundTrip.v): unique hosts and paths, no
+   empty route or host (the invariant); host in lower case and host ++ path splits back into
+   (host, path); no route with two targets equal in service, URL, weight and tags ([twin_free]);
+   every target has positive effective weight ([live]); service, host ++ path, URL, tags, option
+   keys and values are non-empty strings over the SAFE BYTE CLASS [safe] (printable ASCII without
+   space, quote, backslash; tags also without comma, option keys without =); option keys in
+   ascending order; no negative weight; every positive weight is a fixed point of
+   parse-after-print ([weight_text_stable]: pweight_dec (fmt4 w) = Ok w, i.e. w is on the
+   4-decimal grid).
+
+   Part 1, table level: running the add commands that String() emits rebuilds the table (hosts in
+   String()'s order), for every table in the domain -- induction over hosts, routes, targets. *)
+Theorem C05_rebuild_rendered : forall canon glob_ok t,
+  table_good canon glob_ok t -> run canon glob_ok (table_defs (reorder t)) = Ok (reorder t).
+Proof. exact rebuild_rendered. Qed.
+Print Assumptions C05_rebuild_rendered.
+
+Theorem C05_reorder_lookup : forall t h, lookup h (reorder t) = lookup h t.
+Proof. exact reorder_lookup. Qed.
+Print Assumptions C05_reorder_lookup.
+
+(* Part 2, scanner inversion: the character-level parser applied to a line of the renderer's
+   shape  route add <svc> <src> <dst>[ weight <w>][ tags "<q>"][ opts "<q>"]  returns exactly those
+   fields, for all token strings free of white space and all quoted strings free of the quote. *)
+Theorem C05_parse_line_rendered : forall pweight svc src dst ow otg oop,
+  tokb svc = true -> tokb src = true -> tokb dst = true -> ow_ok ow -> oq_ok otg -> oq_ok oop ->
+  parse_line pweight (drop_cr (add_line svc src dst ow otg oop))
+  = match parse_weight pweight ow with
+    | Ok f => Ok (Some (mk CmdAdd svc src dst f (parse_tags (ostr otg)) (parse_opts (ostr oop))))
+    | _ => Err e_weight_value
+    end.
+Proof. exact parse_line_rendered. Qed.
+Print Assumptions C05_parse_line_rendered.
+
+(* parseTags / parseOpts invert strings.Join(tags, ",") and "k=v k=v ..." on the safe class *)
+Theorem C05_parse_tags_join : forall tags,
+  tags <> [] -> Forall (fun t => tag_ok t = true) tags -> parse_tags (join tags [44]) = tags.
+Proof. exact parse_tags_join. Qed.
+Print Assumptions C05_parse_tags_join.
+
+Theorem C05_parse_opts_text : forall o,
+  Forall (fun kv => kv_ok kv = true) o -> opts_sorted o -> parse_opts (opts_text o) = o.
+Proof. exact parse_opts_text. Qed.
+Print Assumptions C05_parse_opts_text.
+
+(* every rendered line of a target in the domain parses back to the command it came from *)
+Theorem C05_target_line_parses : forall h p ts tg, tg_text_ok h p ts tg ->
+  parse_line pweight_dec (drop_cr (target_config h p tg)) = Ok (Some (def_of h p tg))
+  /\ forallb lc (target_config h p tg) = true.
+Proof. exact target_line_parses. Qed.
+Print Assumptions C05_target_line_parses.
+
+(* Part 3, composition, character level: NewTable(t.String()) succeeds and holds, under every
+   host, the same routes with the same targets (service, URL, weight, tags, options, order), the
+   routes of a host sorted as NewTable sorts them. *)
+Theorem C05_render_parse_roundtrip : forall canon glob_ok t,
+  table_good canon glob_ok t -> text_good t ->
+  new_table pweight_dec canon glob_ok (render t) = Ok (sort_table (reorder t))
+  /\ forall h, lookup h (sort_table (reorder t)) = option_map sort_routes (lookup h t).
+Proof. exact render_parse_roundtrip. Qed.
+Print Assumptions C05_render_parse_roundtrip.
+
+(* The hypothesis [weight_text_stable] holds for every grid weight k/10000, 1 <= k <= 10000
+   (exhaustive kernel evaluation); beyond 1.0000 it remains a per-weight hypothesis. *)
+Theorem C05_grid_weight_stable : forall k, 1 <= k <= 10000 -> weight_text_stable (w_of_dec false k 4).
+Proof. exact grid_weight_stable. Qed.
+Print Assumptions C05_grid_weight_stable.
+
+(* non-vacuity of the domain: a table with a weighted, tagged target with options beside a
+   dynamic one *)
+Theorem C05_roundtrip_nonvacuous : table_good idcanon anyglob ex_table /\ text_good ex_table.
+Proof. exact roundtrip_nonvacuous. Qed.
+Print Assumptions C05_roundtrip_nonvacuous.
+
+(* NOT proved: the round trip "to four decimals" for weights OFF the grid (there the re-parsed
+   weight is the rounded one; [Proofs.TableCmd.render_parse_roundtrip_statement] keeps that
+   statement); that every table reachable by commands has host ++ path splitting back and option
+   keys ascending (true by construction of hostpath / opt_insert, here domain hypotheses).
+   Kept from before: the conclusion evaluated on a concrete table with off-grid weights. *)
 Theorem C05_render_parse_roundtrip_partial :
   exists t t', nt_text ex_rt_script = Ok t /\ length (flat t) = 6%nat
                /\ nt_text (render t) = Ok t' /\ same_content4 t t' = true.
